@@ -9,6 +9,7 @@
 #include <csignal>
 #include <unistd.h>
 #include <sys/wait.h>
+#include <sys/resource.h>
 using namespace Parma_Polyhedra_Library;
 typedef std::mt19937 RNG;
 static long L(const Coefficient& c) { long v = 0; Result r = assign_r(v, c, ROUND_DOWN); return (r == V_EQ && v < 100000000 && v > -100000000) ? v : 99999999; }
@@ -54,7 +55,9 @@ int main(int argc, char** argv) {
       else { in.kind = 0; in.c = rnd_con(r, cur.D, true); cur.cs.push_back(in.c); }
       datas.push_back(cur); }
     std::cout.flush(); int fd[2]; if (pipe(fd)) return 1; pid_t pid = fork();
-    if (pid == 0) { close(fd[0]); alarm(6); std::ostringstream o; int done = 0;
+    if (pid == 0) { close(fd[0]);
+      // the limit is on CPU time (independent of the load of the machine); the wall-clock alarm is only a backstop
+      { struct rlimit rl; rl.rlim_cur = 6; rl.rlim_max = 8; setrlimit(RLIMIT_CPU, &rl); } alarm(120); std::ostringstream o; int done = 0;
       try {
         Variables_Set ps; for (unsigned k = 0; k < d.D; ++k) if (d.is_par[k]) ps.insert(Variable(k));
         PIP_Problem pip(d.D, d.cs.begin(), d.cs.end(), ps);
@@ -77,7 +80,7 @@ int main(int argc, char** argv) {
     std::istringstream is(buf); std::string line; int announced = -1, answered = -1; std::string excmsg;
     while (std::getline(is, line)) { if (line.empty()) continue; if (line[0] == '@') announced = atoi(line.c_str() + 1); else if (line[0] == '!') excmsg = line.substr(1); else if (line[line.size() - 1] == '}') { std::cout << line << "\n"; ++answered; } }
     if (announced > answered) { const Data& dd = datas[announced];
-      std::string st = WIFSIGNALED(stt) ? (WTERMSIG(stt) == SIGALRM ? "hang" : "crash") : (excmsg.empty() ? "crash" : "exception");
+      std::string st = WIFSIGNALED(stt) ? ((WTERMSIG(stt) == SIGALRM || WTERMSIG(stt) == SIGXCPU || WTERMSIG(stt) == SIGKILL) ? "hang" : "crash") : (excmsg.empty() ? "crash" : "exception");
       std::cout << "{" << data_json(dd, id, announced, cut, piv) << ",\"status\":\"" << st << "\",\"ok\":true,\"tree\":{\"kind\":\"bot\"}}\n"; }
   }
   return 0;
